@@ -88,6 +88,19 @@ def checkCase (j : Json) : Except String Verdict := do
       i := i + 1
     return { v with nontrivial := true }
   | none => pure ()
+  -- browsers at the signature gate at once: a borrowed signature is refused, the genuine link passes
+  match (j.getObjVal? "sigOverlap").toOption with
+  | some oj =>
+    let num (k : String) : Int := (oj.getObjVal? k).toOption.bind (·.getInt?.toOption) |>.getD 0
+    let fst (k : String) : String := ((j.getObjVal? "first").toOption.bind (·.getObjVal? k |>.toOption)).bind (·.getStr?.toOption) |>.getD ""
+    for k in ["borrowedAccepted", "genuineRefused", "panics"] do
+      v := v.cmp 0 s!"sigOverlap.{k}" (0 : Int) (num k) ["C07"]
+    if num "borrowedAccepted" != 0 then v := v.mons ["C07", "C19"] "redirect_only_for_signed_uri" 0 s!"×{num "borrowedAccepted"} of {num "borrowed"}: {fst "borrowedAccepted"}"
+    if num "genuineRefused" != 0 then v := v.mon "C07" "genuine_link_refused" 0 s!"×{num "genuineRefused"} of {num "genuine"}: {fst "genuineRefused"}"
+    if num "panics" != 0 then v := v.mon "C07" "genuine_link_refused" 0 s!"panic at the gate: {fst "panics"}"
+    v := v.br "sigOverlap"
+    return { v with nontrivial := true }
+  | none => pure ()
   -- back-channel requests of several callers in flight at once
   match (j.getObjVal? "overlap").toOption with
   | some oj =>
@@ -215,7 +228,7 @@ def checkCase (j : Json) : Except String Verdict := do
     let presented := getJ st "presented"
     let cookie : CookieIn := match strD presented "kind" with
       | "sess" => (match sessOf (getJ presented "sess") with | some s => .opens s | none => .junk)
-      | "garbage" | "otherkey" => .junk
+      | "garbage" | "otherkey" | "codekey" => .junk
       | _ => .absent
     let ans : IdPAns := { validate := validateOf slug (getJ inp "idpValidate"), refresh := refreshOf slug (getJ inp "idpToken") }
     let rawIdp := strD (getJ inp "idpToken") "kind" == "raw" || strD (getJ inp "idpValidate") "kind" == "raw" ||
@@ -269,6 +282,11 @@ def checkCase (j : Json) : Except String Verdict := do
             let cin : CodeIn := { opens := if kind == "genuine" then some ⟨toB "ann@x.io", "at-code", "rt-code", 3000, 600⟩
               else if kind == "expired-refresh" then some ⟨toB "ann@x.io", "at-code", "rt-code", 3000, -10⟩
               else if kind == "expired-lifetime" then some ⟨toB "ann@x.io", "at-code", "rt-code", -10, 600⟩ else none }
+            -- C02 / C08 (from the outputs alone): the code key and nothing else opens a code
+            if (kind == "otherkey" || kind == "cookiekey" || kind == "garbage" || kind == "jarcookie") && status == 200 then
+              v := v.mons ["C08", "C02"] "redeem_opens_only_own_key" idx s!"a value sealed as '{kind}' was redeemed"
+            if kind == "genuine" && status != 200 then
+              v := v.mons ["C02", "C08"] "round_trip" idx s!"a code sealed under the configured session key was refused with {status}"
             match redeem 0 cin with
             | .tokens e at' rt' _ =>
               v := v.cmp idx "redeem.status" 200 status ["C08"]
@@ -410,7 +428,11 @@ def checkCase (j : Json) : Except String Verdict := do
           v := v.mon "C09" "code_without_provider_confirmation" idx
         if !emailOK s.email then v := v.mon "C09" "code_for_disallowed_email" idx
         if strD (getJ loc "code") "email" != showBytes s.email then v := v.mon "C09" "code_is_not_the_session" idx
-      | _ => v := v.mon "C09" "code_without_session" idx
+      | _ =>
+        let pk := strD presented "kind"
+        if pk == "codekey" || pk == "otherkey" || pk == "garbage" then
+          v := v.mons ["C09", "C02"] "code_without_session" idx s!"a cookie value of kind '{pk}' was accepted as the session"
+        else v := v.mon "C09" "code_without_session" idx
       if first (formVals "state") == "" then v := v.mon "C09" "code_without_state" idx
     -- C09: a refresh / revalidation never moves the lifetime fixed at login, nor changes whose session it is
     if endpoint != "callback" then
